@@ -1813,13 +1813,13 @@ fn gen_value_tokens(rng: &mut Rng, fl: char, naughty: u64) -> Vec<String> {
 }
 
 fn gen_payload(rng: &mut Rng, fl: char) -> (Vec<u8>, usize) {
-    if rng.chance(1, 6) {
+    if rng.chance(1, 8) {
         return (random_payload(rng, fl), 2);
     }
     let toks = gen_value_tokens(rng, fl, 1_000_000);
     match encode_tokens(fl, &toks) {
         Some((mut bs, dv)) => {
-            if rng.chance(1, 2) {
+            if rng.chance(2, 5) {
                 mutate(rng, &mut bs);
             }
             (bs, dv)
